@@ -48,8 +48,10 @@ func TestC09_StorageLiabilitiesBacked(t *testing.T) {
 	st.Assume("storage contract: liabilities = delegate stakes + unpaid delegate and provider rewards + write pools + challenge pools + read pools over every stake pool, allocation and client of the history; newly accrued reward = block_reward.block_reward (plus one unit per blobber for rounding) for blobber_block_rewards, nothing otherwise")
 	grew := map[string]bool{}
 	caseReset["C09"] = func() { grew = map[string]bool{} }
-	ops := append([]string{"storageSettings", "blobberSettings2", "blobberSettings2", "fillAlloc", "fillAlloc", "replaceChallenged", "replaceChallenged", "extend2", "newAlloc2", "extend2", "extend2", "freeAlloc", "addAssigner", "readRedeem2", "readRedeem2", "replaceBlobber", "kill", "blockRewards2", "blockRewards2", "collect", "unstake"}, defaultOps...)
-	runMachineOps(t, "C09", ops, storageDomain+" plus free-storage grants and read markers of several readers; oracle after every applied transaction: (liabilities after - liabilities before) <= (contract wallet after - before) + newly accrued block reward, where liabilities = all delegate stakes + unpaid rewards + write pools + challenge pools + read pools; non-trivial = history in which pools of >= 4 different kinds of transaction grew; distinct by history", 40, 90,
+	ops := []string{"newAlloc2", "newAlloc2", "fillAlloc", "fillAlloc", "upload", "delete", "missThenPass", "missThenPass", "missThenPass", "repriceExtend", "repriceExtend", "replaceChallenged", "replaceChallenged",
+		"extend2", "extend2", "freeAlloc", "addAssigner", "readLock", "readRedeem2", "readRedeem2", "writeLock", "stake", "unstake", "unstake2", "collect", "collect2", "kill", "shutdown", "blockRewards2", "cancel", "finalize",
+		"storageSettings", "blobberSettings2", "advance", "respond"}
+	runMachineOps(t, "C09", ops, storageDomain+" plus free-storage grants and read markers of several readers; oracle after every applied transaction: (liabilities after - liabilities before) <= (contract wallet after - before) + newly accrued block reward, where liabilities = all delegate stakes + unpaid rewards + write pools + challenge pools + read pools; non-trivial = history in which pools grew in >= 3 different kinds of transaction; distinct by history", 40, 90,
 		func(m *machine, txn *transaction.Transaction, o sim.Outcome, before *snapshot) error {
 			after := m.snap()
 			lb, pb := liabilities(before)
@@ -81,7 +83,7 @@ func TestC09_StorageLiabilitiesBacked(t *testing.T) {
 			return nil
 		},
 		func(m *machine) (bool, string) {
-			nt := len(grew) >= 4
+			nt := len(grew) >= 3
 			grew = map[string]bool{}
 			return nt, "c09"
 		})
